@@ -199,12 +199,18 @@ public:
     virtual void
     reset()
     {
-        std::for_each(
-            m_blocks.begin(),
-            m_blocks.end(),
-            DeleteFunctor<ArenaBlockType>(m_blocks.getMemoryManager()));
+        // (empty() does not create the head node of a list that
+        // has never been used, which begin() would.  This is called
+        // from destructors, which must not allocate memory.)
+        if (m_blocks.empty() == false)
+        {
+            std::for_each(
+                m_blocks.begin(),
+                m_blocks.end(),
+                DeleteFunctor<ArenaBlockType>(m_blocks.getMemoryManager()));
 
-        m_blocks.clear();
+            m_blocks.clear();
+        }
     }
 
 protected:
